@@ -527,6 +527,25 @@ func (i *Instance) Close() error {
 	return first
 }
 
+// Kill abandons the instance the way a killed process would: background
+// goroutines are reaped first (Stop touches nothing on disk; the GC loop must not
+// be inside SQLite when its connections disappear), then every SQLite connection
+// opened through the injecting driver is closed without commit (open
+// transactions are discarded, no rollback/after-commit hook runs), then the
+// handles are released. Only for instances opened with Options.Inject.
+func (i *Instance) Kill() {
+	if i.started {
+		_ = i.Storage.Stop(context.Background())
+		i.started = false
+	}
+	inject.KillConnections()
+	if !i.dbClosed {
+		_ = i.DB.Close()
+		i.dbClosed = true
+	}
+	i.Builder.Release()
+}
+
 // Store returns the named part store ("default" or an extra name).
 func (i *Instance) Store(name string) partstore.PartStore {
 	if name == "default" || name == "" {
